@@ -148,10 +148,8 @@ func (r *runner) runOps(fx *fixture, ops []string) {
 			return
 		}
 		res.Count("verdict:res:" + v)
-		if hasNil {
-			if v == "ok" {
-				r.fail("spec", "accepted-bound:res.null-entry", "results with a null transaction result were accepted", caseLn)
-			}
+		if hasNil && v == "ok" {
+			r.fail("spec", "accepted-bound:res.null-entry", "results with a null transaction result were accepted", caseLn)
 			return
 		}
 		k.set("rh", hx(rh))
@@ -214,8 +212,8 @@ func (r *runner) runOps(fx *fixture, ops []string) {
 			return
 		}
 		res.Count("verdict:resc:" + sc + ":" + v)
-		if hasNil {
-			// the skip branch only decodes; no model line for the nil entry
+		if hasNil && v == "ok" {
+			r.fail("spec", "accepted-bound:res.null-entry", "results with a null transaction result were accepted", caseLn)
 			return
 		}
 		last := "none"
@@ -303,10 +301,8 @@ func (r *runner) runOps(fx *fixture, ops []string) {
 			return
 		}
 		res.Count("verdict:params:" + v)
-		if missing {
-			if v == "ok" {
-				r.fail("spec", "accepted-bound:params.missing-submessage", "parameters with a missing section were accepted", caseLn)
-			}
+		if missing && v == "ok" {
+			r.fail("spec", "accepted-bound:params.missing-submessage", "parameters with a missing section were accepted", caseLn)
 			return
 		}
 		r.add(item{kind: "params", mut: mut, caseLn: caseLn, line: k.line("vparams", "want="+v, ref(mut == "orig"))})
